@@ -38,7 +38,11 @@ func (h *histRun) owns(rule string) bool {
 // run executes N generated histories in parallel and classifies the model's findings.
 func (h *histRun) run(c *vk.Ctx) {
 	var witnessed atomic.Int64
-	vk.Parallel(h.N, 0, func(i int) {
+	n := h.N
+	if c.Quick() {
+		n *= vkEnvInt("VERIF_QSCALE", 5) // quick history counts in the check definitions are the base; a quick run costs 5-15 s
+	}
+	vk.Parallel(n, 0, func(i int) {
 		r := vk.Sub(c.Seed, h.Label, uint64(i))
 		cfg, ids, ops := h.Profile.Generate(r)
 		if h.Mutate != nil {
